@@ -7,6 +7,9 @@
 (*               integers (all |v| < 2^20 and rows shorter than 2048), RowsW: [hi, lo] pairs *)
 (*   SetFilter   fmt px[4] ret         constant source image, pixman_image_set_filter        *)
 (*   RenderBegin / Render  repeat affine out[[a,r,g,b]..]   OP_SRC into an a8r8g8b8 image    *)
+(*   ScanDone    scanned selected control   end of a wide scan with selection (drv_filter W): only    *)
+(*               the tables a structural pre-screen selected, plus a control sample, were logged   *)
+(*               (each as an execution of its own, judged like any other); the rest is NOT judged  *)
 (*   End         the driver executed its whole script                                         *)
 (*   Crash       (signal, AddressSanitizer abort, watchdog)  -- matches no action            *)
 (* A call that does not return (crash, sanitizer abort) leaves CreateBegin / RenderBegin     *)
@@ -87,6 +90,12 @@ TRender ==
     /\ Render(src, Ev.out)
     /\ UNCHANGED src /\ l' = l + 1
 
+TScanDone ==
+    /\ Is("ScanDone")
+    /\ flt.st \notin {"calling", "creating"}
+    /\ Ev.scanned >= Ev.selected + Ev.control
+    /\ UNCHANGED <<flt, src>> /\ l' = l + 1
+
 (* the driver reached the end of its script: no call is left unanswered, nothing follows *)
 TEnd ==
     /\ Is("End")
@@ -95,6 +104,6 @@ TEnd ==
     /\ UNCHANGED <<flt, src>> /\ l' = l + 1
 
 TInit == FInit /\ l = 1 /\ src = <<0, 0, 0, 0>>
-TNext == TReset \/ TCreateBegin \/ TCreate \/ TRows \/ TRowsW \/ TSetFilter \/ TRenderBegin \/ TRender \/ TEnd
+TNext == TReset \/ TCreateBegin \/ TCreate \/ TRows \/ TRowsW \/ TSetFilter \/ TRenderBegin \/ TRender \/ TScanDone \/ TEnd
 TSpec == TInit /\ [][TNext]_<<flt, l, src>>
 =============================================================================
